@@ -421,11 +421,12 @@ func (h *H) regCount() {
 
 type histIn struct {
 	ID      int     `json:"id"`
-	Kind    string  `json:"kind"` // forced | stress
+	Kind    string  `json:"kind"` // forced | stress | e2e
 	Ops     [][]int `json:"ops,omitempty"`
 	Clients int     `json:"clients,omitempty"`
 	Rounds  int     `json:"rounds,omitempty"`
 	Seed    uint64  `json:"seed,omitempty"`
+	E2E     *e2eIn  `json:"e2e,omitempty"`
 }
 
 type histOut struct {
@@ -438,6 +439,7 @@ type histOut struct {
 	G1         int        `json:"g1"`
 	SSERunning int        `json:"sse_running"` // goroutines still inside package sse at the end
 	Stress     *stressOut `json:"stress,omitempty"`
+	E2E        *e2eOut    `json:"e2e,omitempty"`
 }
 
 func sseGoroutines() int {
@@ -813,6 +815,11 @@ func main() {
 			var out histOut
 			if in.Kind == "stress" {
 				out = runStress(in)
+			} else if in.Kind == "e2e" {
+				if in.E2E == nil {
+					in.E2E = &e2eIn{}
+				}
+				out = runE2E(in)
 			} else {
 				out = runForced(in)
 			}
